@@ -1,21 +1,20 @@
-"""Reference reader of NM-TRAN abbreviated code for C02 (part of the trusted tie; written from the
-NM-TRAN documentation, independent of pharmpy's lark grammar).
+"""Tokenizer of NM-TRAN abbreviated code for C02 (the only Python-side part of the reference reader; the
+grammar — operator precedence, IF blocks — is the Coq reader coq/theories/C02/Read.v).
 
-  parse_code(text)      -> list of statements of $PK / $PRED / $ERROR / $DES text
+  tokens(text, abbr)    -> list of tokens of $PK / $PRED / $ERROR / $DES text
   split_records(text)   -> [(record name, raw text)] of a control stream
-  term(stmts, names)    -> Gallina term  list nmstmt   (PV.C02.Model)
+  toks_term(toks, names)-> Gallina term  list tok  (PV.C02.Read)
 
-AST (Python tuples)
-  expression : ('num', Fraction) | ('sym', NAME) | ('fn', NAME, [args]) | ('add'|'sub'|'mul'|'div'|'pow', a, b)
-               | ('neg', a)
-  condition  : ('rel', OP, a, b) | ('and', a, b) | ('or', a, b) | ('not', a)
-  statement  : ('assign', NAME, e) | ('if', c, NAME, e)
-               | ('block', [(c, [simple...]), ...], None | [simple...])
-Fortran rules: ** binds tighter than unary minus and is right associative; * / left associative;
-+ - left associative; relational operators bind looser than arithmetic; .NOT. > .AND. > .OR.;
-names are case insensitive (upper-cased); THETA(i), ETA(i), EPS(i)/ERR(i), A(i), DADT(i), A_0(i),
-OMEGA(i,j), SIGMA(i,j) are subscripted variables and become symbols with that spelling.
-Anything else (DO WHILE, CALL, EXIT, verbatim code, nested blocks) raises Unsupported.
+Lexical work done here (trusted): comments (;...) and blank lines dropped, continuation lines (&) joined,
+names upper-cased, numbers converted (integers exactly, decimals as the double NONMEM reads),
+THETA(i) / ETA(i) / EPS(i)|ERR(i) / A(i) / DADT(i) / A_0(i) / OMEGA(i,j) / SIGMA(i,j) with literal
+subscripts fused into one symbol, $ABBR REPLACE names substituted, function names mapped to the function
+identifiers of Base/Interp.v, keywords IF THEN ELSE ELSEIF|ELSE IF ENDIF|END IF, operator spellings
+(.GT. and >, ...), one KNl token per logical line.  Verbatim code, DO WHILE, CALL, EXIT ... raise
+Unsupported (the case is skipped and counted).
+
+token = ('num', Fraction) | ('sym', NAME) | ('fn', NAME) | ('op', one of + - * / ** ( ) ,) | ('rel', OP)
+        | ('kw', one of AND OR NOT IF THEN ELSE ELSEIF ENDIF EQ NL)
 """
 import re
 from fractions import Fraction
@@ -87,143 +86,6 @@ def number(text):
     return Fraction(float(t))
 
 
-class P:
-    def __init__(self, toks):
-        self.t = toks
-        self.i = 0
-
-    def peek(self):
-        return self.t[self.i] if self.i < len(self.t) else (None, None)
-
-    def next(self):
-        tok = self.peek()
-        self.i += 1
-        return tok
-
-    def accept(self, text):
-        if self.peek()[1] == text:
-            self.i += 1
-            return True
-        return False
-
-    def expect(self, text):
-        if not self.accept(text):
-            raise ParseError(f'expected {text!r} at {self.t[self.i:self.i + 3]}')
-
-    def at_end(self):
-        return self.i >= len(self.t)
-
-    # ---- arithmetic
-    def expr(self):
-        k, v = self.peek()
-        if v == '-':
-            self.next()
-            left = ('neg', self.term())
-        elif v == '+':
-            self.next()
-            left = self.term()
-        else:
-            left = self.term()
-        while self.peek()[1] in ('+', '-'):
-            op = self.next()[1]
-            right = self.term()
-            left = ('add' if op == '+' else 'sub', left, right)
-        return left
-
-    def term(self):
-        left = self.factor()
-        while self.peek()[1] in ('*', '/'):
-            op = self.next()[1]
-            right = self.factor()
-            left = ('mul' if op == '*' else 'div', left, right)
-        return left
-
-    def factor(self):
-        base = self.primary()
-        if self.accept('**'):
-            # right associative; a sign is allowed in the exponent (common extension)
-            if self.peek()[1] == '-':
-                self.next()
-                ex = ('neg', self.factor())
-            elif self.peek()[1] == '+':
-                self.next()
-                ex = self.factor()
-            else:
-                ex = self.factor()
-            return ('pow', base, ex)
-        return base
-
-    def primary(self):
-        k, v = self.next()
-        if k == 'num':
-            return ('num', number(v))
-        if v == '(':
-            e = self.expr()
-            self.expect(')')
-            return e
-        if k == 'name':
-            if self.peek()[1] == '(':
-                self.next()
-                args = [self.expr()]
-                while self.accept(','):
-                    args.append(self.expr())
-                self.expect(')')
-                if v in SUBSCRIPTED:
-                    idx = []
-                    for a in args:
-                        if a[0] != 'num' or a[1].denominator != 1:
-                            raise Unsupported(f'non-literal subscript of {v}')
-                        idx.append(str(a[1].numerator))
-                    name = 'EPS' if v == 'ERR' else v
-                    return ('sym', f'{name}({",".join(idx)})')
-                if v in FUNCS:
-                    fid, ar = FUNCS[v]
-                    if len(args) != ar:
-                        raise ParseError(f'{v} takes {ar} argument(s), got {len(args)}')
-                    return ('fn', v, args)
-                raise Unsupported(f'unknown function {v}')
-            return ('sym', v)
-        raise ParseError(f'unexpected token {v!r}')
-
-    # ---- logical
-    def cond(self):
-        left = self.cand()
-        while self.peek()[1] == '.OR.':
-            self.next()
-            left = ('or', left, self.cand())
-        return left
-
-    def cand(self):
-        left = self.cnot()
-        while self.peek()[1] == '.AND.':
-            self.next()
-            left = ('and', left, self.cnot())
-        return left
-
-    def cnot(self):
-        if self.peek()[1] == '.NOT.':
-            self.next()
-            return ('not', self.cnot())
-        # parenthesised condition or a relation starting with a parenthesised arithmetic expression
-        if self.peek()[1] == '(':
-            save = self.i
-            try:
-                self.next()
-                c = self.cond()
-                self.expect(')')
-                if self.peek()[1] not in RELOPS and self.peek()[1] not in ('+', '-', '*', '/', '**'):
-                    return c
-            except ParseError:
-                pass
-            self.i = save
-        a = self.expr()
-        k, v = self.next()
-        if v not in RELOPS:
-            raise ParseError(f'expected a relational operator, got {v!r}')
-        b = self.expr()
-        return ('rel', RELOPS[v], a, b)
-
-
 def logical_lines(text):
     """Strip comments, join continuation lines, drop blanks; verbatim lines are unsupported."""
     out = []
@@ -244,118 +106,108 @@ def logical_lines(text):
     return out
 
 
-def _split_if(toks):
-    """toks of a line starting with IF ( ... ) : returns (condition tokens, rest tokens)."""
-    assert toks[0][1] == 'IF' and toks[1][1] == '('
-    depth = 0
-    for j in range(1, len(toks)):
-        if toks[j][1] == '(':
-            depth += 1
-        elif toks[j][1] == ')':
-            depth -= 1
-            if depth == 0:
-                return toks[2:j], toks[j + 1:]
-    raise ParseError('unbalanced IF condition')
+
+KW = {'IF', 'THEN', 'ELSE', 'ELSEIF', 'ENDIF'}
+BAD_HEADS = {'DO', 'DOWHILE', 'ENDDO', 'CALL', 'EXIT', 'RETURN', 'WRITE', 'PRINT', 'OPEN', 'CLOSE', 'REWIND', 'COMRES', 'COMSAV'}
 
 
-def _assignment(toks):
-    p = P(toks)
-    k, v = p.next()
-    if k != 'name':
-        raise Unsupported(f'statement starting with {v!r}')
-    name = v
-    if p.peek()[1] == '(':
-        p.next()
-        k2, v2 = p.next()
-        if k2 != 'num' or name not in SUBSCRIPTED:
-            raise Unsupported(f'assignment to {name}(...)')
-        idx = [v2]
-        while p.accept(','):
-            idx.append(p.next()[1])
-        p.expect(')')
-        name = f'{name}({",".join(idx)})'
-    if not p.accept('='):
-        raise Unsupported(f'not an assignment: {name}')
-    e = p.expr()
-    if not p.at_end():
-        raise ParseError(f'trailing tokens {p.t[p.i:]}')
-    return name, e
-
-
-def _cond(toks):
-    p = P(toks)
-    c = p.cond()
-    if not p.at_end():
-        raise ParseError(f'trailing tokens in condition {p.t[p.i:]}')
-    return c
-
-
-def parse_code(text):
-    lines = logical_lines(text)
-    stmts = []
-    i = 0
-
-    def simple(toks):
-        if toks[0][1] == 'IF' and len(toks) > 1 and toks[1][1] == '(':
-            ctoks, rest = _split_if(toks)
-            if not rest or rest[0][1] == 'THEN':
-                raise Unsupported('nested block IF')
-            x, e = _assignment(rest)
-            return ('if', _cond(ctoks), x, e)
-        x, e = _assignment(toks)
-        return ('assign', x, e)
-
-    while i < len(lines):
-        toks = tokenize(lines[i])
-        i += 1
-        if not toks:
+def tokens(text, abbr=None):
+    """token list of a code record's text"""
+    abbr = abbr or {}
+    out = []
+    for line in logical_lines(text):
+        raw = tokenize(line)
+        if not raw:
             continue
-        head = toks[0][1]
-        if head == 'IF' and len(toks) > 1 and toks[1][1] == '(':
-            ctoks, rest = _split_if(toks)
-            if len(rest) == 1 and rest[0][1] == 'THEN':
-                branches = [(_cond(ctoks), [])]
-                els = None
-                cur = branches[0][1]
-                while True:
-                    if i >= len(lines):
-                        raise ParseError('missing ENDIF')
-                    t2 = tokenize(lines[i])
+        if raw[0][1] in BAD_HEADS:
+            raise Unsupported(raw[0][1])
+        i = 0
+        n = len(raw)
+        while i < n:
+            k, v = raw[i]
+            nxt = raw[i + 1][1] if i + 1 < n else None
+            if k == 'num':
+                out.append(('num', number(v)))
+            elif k == 'dotop':
+                if v in RELOPS:
+                    out.append(('rel', RELOPS[v]))
+                else:
+                    out.append(('kw', v.strip('.')))
+            elif k == 'name':
+                if v == 'ELSE' and nxt == 'IF':
+                    out.append(('kw', 'ELSEIF'))
                     i += 1
-                    if not t2:
-                        continue
-                    h = [v for _, v in t2]
-                    if h == ['ENDIF'] or h == ['END', 'IF']:
-                        break
-                    if h[0] == 'ELSEIF' or h[:2] == ['ELSE', 'IF']:
-                        if els is not None:
-                            raise ParseError('ELSE IF after ELSE')
-                        k = 1 if h[0] == 'ELSEIF' else 2
-                        c2, rest2 = _split_if([('name', 'IF')] + t2[k:])
-                        if [v for _, v in rest2] != ['THEN']:
-                            raise ParseError('ELSE IF without THEN')
-                        branches.append((_cond(c2), []))
-                        cur = branches[-1][1]
-                        continue
-                    if h == ['ELSE']:
-                        if els is not None:
-                            raise ParseError('two ELSE')
-                        els = []
-                        cur = els
-                        continue
-                    cur.append(simple(t2))
-                stmts.append(('block', branches, els))
+                elif v == 'END' and nxt == 'IF':
+                    out.append(('kw', 'ENDIF'))
+                    i += 1
+                elif v in KW:
+                    out.append(('kw', v))
+                elif nxt == '(' and v in SUBSCRIPTED:
+                    j = i + 2
+                    idx = []
+                    while j < n and raw[j][1] != ')':
+                        if raw[j][0] == 'num' and re.fullmatch(r'\d+', raw[j][1]):
+                            idx.append(raw[j][1])
+                        elif raw[j][1] != ',':
+                            raise Unsupported(f'non-literal subscript of {v}')
+                        j += 1
+                    if j >= n:
+                        raise ParseError('unbalanced subscript')
+                    out.append(('sym', f"{'EPS' if v == 'ERR' else v}({','.join(idx)})"))
+                    i = j
+                elif nxt == '(':
+                    if v not in FUNCS:
+                        raise Unsupported(f'unknown function {v}')
+                    out.append(('fn', v))
+                else:
+                    out.append(('sym', abbr.get(v, v)))
             else:
-                stmts.append(simple(toks))
-        elif head in ('DO', 'DOWHILE', 'ENDDO', 'CALL', 'EXIT', 'RETURN', 'WRITE', 'PRINT', 'OPEN', 'CLOSE',
-                      'REWIND', 'COMRES', 'COMSAV'):
-            raise Unsupported(head)
-        elif head in ('ELSE', 'ELSEIF', 'ENDIF', 'END', 'THEN'):
-            raise ParseError(f'{head} outside a block IF')
-        else:
-            stmts.append(simple(toks))
-    return stmts
+                if v in RELOPS:
+                    out.append(('rel', RELOPS[v]))
+                elif v == '=':
+                    out.append(('kw', 'EQ'))
+                else:
+                    out.append(('op', v))
+            i += 1
+        out.append(('kw', 'NL'))
+    return out
 
+
+def assigned(toks):
+    """names that stand left of an assignment sign (lexical scan: NAME = at line start or after IF (...))"""
+    res = []
+    for i in range(len(toks) - 1):
+        if toks[i][0] == 'sym' and toks[i + 1] == ('kw', 'EQ') and toks[i][1] not in res:
+            res.append(toks[i][1])
+    return res
+
+
+def symbols(toks):
+    return {v for k, v in toks if k == 'sym'}
+
+
+OPTOK = {'+': 'KPlus', '-': 'KMinus', '*': 'KTimes', '/': 'KDiv', '**': 'KPow', '(': 'KLp', ')': 'KRp', ',': 'KComma'}
+KWTOK = {'AND': 'KAnd', 'OR': 'KOr', 'NOT': 'KNot', 'IF': 'KIf', 'THEN': 'KThen', 'ELSE': 'KElse', 'ELSEIF': 'KElseIf',
+         'ENDIF': 'KEndIf', 'EQ': 'KEq', 'NL': 'KNl'}
+
+
+def tok_term(t, names):
+    k, v = t
+    if k == 'num':
+        return f'(KNum {ct.q(v)})'
+    if k == 'sym':
+        return f'(KSym {names.p(v)})'
+    if k == 'fn':
+        return f'(KFn {FUNCS[v][0]}%positive)'
+    if k == 'op':
+        return OPTOK[v]
+    if k == 'rel':
+        return f'(KRel {v})'
+    return KWTOK[v]
+
+
+def toks_term(toks, names):
+    return ct.lst([tok_term(t, names) for t in toks])
 
 # ------------------------------------------------------------------ control stream level
 def split_records(text):
@@ -392,163 +244,3 @@ def abbr_replace_map(records):
     return m
 
 
-def rename(stmts, m):
-    def e_(e):
-        k = e[0]
-        if k == 'sym':
-            return ('sym', m.get(e[1], e[1]))
-        if k == 'num':
-            return e
-        if k == 'fn':
-            return ('fn', e[1], [e_(a) for a in e[2]])
-        if k == 'neg':
-            return ('neg', e_(e[1]))
-        return (k, e_(e[1]), e_(e[2]))
-
-    def c_(c):
-        k = c[0]
-        if k == 'rel':
-            return ('rel', c[1], e_(c[2]), e_(c[3]))
-        if k == 'not':
-            return ('not', c_(c[1]))
-        return (k, c_(c[1]), c_(c[2]))
-
-    def s_(s):
-        if s[0] == 'assign':
-            return ('assign', m.get(s[1], s[1]), e_(s[2]))
-        return ('if', c_(s[1]), m.get(s[2], s[2]), e_(s[3]))
-
-    out = []
-    for s in stmts:
-        if s[0] == 'block':
-            out.append(('block', [(c_(c), [s_(x) for x in body]) for c, body in s[1]],
-                        None if s[2] is None else [s_(x) for x in s[2]]))
-        else:
-            out.append(s_(s))
-    return out
-
-
-def assigned(stmts):
-    out = []
-    for s in stmts:
-        if s[0] == 'block':
-            for _, body in s[1]:
-                out += [x[1] if x[0] == 'assign' else x[2] for x in body]
-            if s[2]:
-                out += [x[1] if x[0] == 'assign' else x[2] for x in s[2]]
-        else:
-            out.append(s[1] if s[0] == 'assign' else s[2])
-    seen, res = set(), []
-    for x in out:
-        if x not in seen:
-            seen.add(x)
-            res.append(x)
-    return res
-
-
-def symbols(stmts):
-    acc = set()
-
-    def e_(e):
-        k = e[0]
-        if k == 'sym':
-            acc.add(e[1])
-        elif k == 'fn':
-            for a in e[2]:
-                e_(a)
-        elif k == 'neg':
-            e_(e[1])
-        elif k != 'num':
-            e_(e[1])
-            e_(e[2])
-
-    def c_(c):
-        if c[0] == 'rel':
-            e_(c[2])
-            e_(c[3])
-        elif c[0] == 'not':
-            c_(c[1])
-        else:
-            c_(c[1])
-            c_(c[2])
-
-    def s_(s):
-        if s[0] == 'assign':
-            acc.add(s[1])
-            e_(s[2])
-        else:
-            c_(s[1])
-            acc.add(s[2])
-            e_(s[3])
-
-    for s in stmts:
-        if s[0] == 'block':
-            for c, body in s[1]:
-                c_(c)
-                for x in body:
-                    s_(x)
-            for x in (s[2] or []):
-                s_(x)
-        else:
-            s_(s)
-    return acc
-
-
-# ------------------------------------------------------------------ Gallina terms
-def e_term(e, names):
-    k = e[0]
-    if k == 'num':
-        return f'(Num {ct.q(e[1])})'
-    if k == 'sym':
-        return f'(Sym {names.p(e[1])})'
-    if k == 'neg':
-        return f'(Neg {e_term(e[1], names)})'
-    if k == 'fn':
-        fid, ar = FUNCS[e[1]]
-        args = [e_term(a, names) for a in e[2]]
-        if ar == 1:
-            return f'(Fn1 {fid}%positive {args[0]})'
-        return f'(Fn2 {fid}%positive {args[0]} {args[1]})'
-    a, b = e_term(e[1], names), e_term(e[2], names)
-    if k == 'add':
-        return f'(Add {a} {b})'
-    if k == 'sub':
-        return f'(Add {a} (Neg {b}))'
-    if k == 'mul':
-        return f'(Mul {a} {b})'
-    if k == 'div':
-        return f'(Div {a} {b})'
-    if k == 'pow':
-        return f'(Fn2 5%positive {a} {b})'
-    raise AssertionError(k)
-
-
-def c_term(c, names):
-    k = c[0]
-    if k == 'rel':
-        return f'(CRel {c[1]} {e_term(c[2], names)} {e_term(c[3], names)})'
-    if k == 'not':
-        return f'(CNot {c_term(c[1], names)})'
-    if k == 'and':
-        return f'(CAnd {c_term(c[1], names)} {c_term(c[2], names)})'
-    if k == 'or':
-        return f'(COr {c_term(c[1], names)} {c_term(c[2], names)})'
-    raise AssertionError(k)
-
-
-def simple_term(s, names):
-    if s[0] == 'assign':
-        return f'(SAssign {names.p(s[1])} {e_term(s[2], names)})'
-    return f'(SIf {c_term(s[1], names)} {names.p(s[2])} {e_term(s[3], names)})'
-
-
-def stmt_term(s, names):
-    if s[0] == 'block':
-        brs = ct.lst([ct.pair(c_term(c, names), ct.lst([simple_term(x, names) for x in body])) for c, body in s[1]])
-        els = 'None' if s[2] is None else f'(Some {ct.lst([simple_term(x, names) for x in s[2]])})'
-        return f'(NBlock {brs} {els})'
-    return f'(NS {simple_term(s, names)})'
-
-
-def term(stmts, names):
-    return ct.lst([stmt_term(s, names) for s in stmts])
